@@ -379,6 +379,19 @@ class PreloadsSim(purity.PuritySim):
         self.after_event(f"read:{tn}.{label}")
         return True
 
+    def do_aux(self, op):
+        target = op["target"]
+        if target not in self.world.env:
+            return False
+        try:
+            out = compare.digest(compare.canon(catalog.perform(self.world.env, target, op["q"], world=self.world, node_id=target)))
+        except (Exception, SystemExit) as e:  # noqa: BLE001
+            out = "raises " + type(e).__name__
+        self.probe("auxiliary_read")
+        self.log.append(ev="aux", target=target, q=op["q"]["name"], outcome=out)
+        self.after_event(f"aux:{op['q']['name']}")
+        return True
+
     def do_harvest(self, op):
         target = op["target"]
         q = op["q"]
@@ -504,6 +517,14 @@ class PreloadsSim(purity.PuritySim):
                         if rs.random() < 0.7:
                             client["queue"].append({"op": "read", "client": client["name"], "target": fid, "q": {"t": "prop", "name": n}})
                 continue
+            # an auxiliary read: any other public cached quantity of the client's inversion (data_subtracted_dict, errors, the noise
+            # map of the reconstruction ... what plotters and summaries ask for).  It is carried out and logged, not compared - it is
+            # history for the successive inversions that share the dataset, the linear objects and the Preloads
+            if client["inv"] in env and rs.random() < 0.15:
+                aux = [n for n in catalog.cached_names(type(env[client["inv"]])) if not n.startswith("_") and n not in OUTPUTS]
+                if aux:
+                    self.apply({"op": "aux", "client": client["name"], "target": client["inv"], "q": {"t": "prop", "name": rs.choice(aux)}})
+                    continue
             # extra repeated read
             if client["inv"] in env:
                 self.apply({"op": "read", "client": client["name"], "target": client["inv"], "q": {"t": "prop", "name": rs.choice(OUTPUTS)}})
@@ -591,7 +612,7 @@ RULE = (
 )
 STATE_MEASURE = "distinct (inversion type, frozenset of populated cached-property names) pairs observed at a read"
 EXPECTED_PROBES = ["p2_compared", "solver_failure_then_recovery", "harvest:set_curvature_matrix", "harvest:set_w_tilde_imaging", "harvest:set_linear_func_inversion_dicts",
-                   "client_uses_dataset_interface", "client_uses_other_image_same_tables", "dataset_rederived_mid_history"]
+                   "client_uses_dataset_interface", "client_uses_other_image_same_tables", "dataset_rederived_mid_history", "auxiliary_read"]
 STUBS = purity.STUBS
 ASSUMPTIONS = [
     "P1/P4 compare against the mapping formalism WITHOUT preloads, built from raw bytes in the isolated reference executor; tolerances relative to the reference max-abs: 1e-10 for data vector / curvature / regularization matrices, "
